@@ -19,6 +19,8 @@ from .sym import (
 )
 from .tmpl import STRLIKE, Fn, Hole, Join, Tmpl, is_symstr, tcat
 
+EMITTED = None  # set to a list to record (function, result, path) of every harness-level call
+
 NORMAL = None
 BREAK = ("break",)
 CONTINUE = ("continue",)
@@ -49,7 +51,10 @@ class Interp:
 
     def call_value(self, fn, *args, **kwargs):
         """Call from harness code; returns value, or an IGen for generator functions."""
-        return self.run(self.call(fn, list(args), dict(kwargs)))
+        r = self.run(self.call(fn, list(args), dict(kwargs)))
+        if EMITTED is not None:
+            EMITTED.append((getattr(fn, "__qualname__", repr(fn)), r, ctx()))
+        return r
 
     def native(self, f, *a, **k):
         """perform a native operation on behalf of the interpreted program"""
